@@ -5,7 +5,7 @@ From Coq Require Import ZArith List Bool QArith Lia.
 From TK Require Import Shapes_Model Shapes_Spec Shapes_Proof_Base Shapes_Proof_Routines
                        Shapes_Proof_Term Shapes_Proof_Main.
 From TK Require Import Validate_Model Mat_EigSelect Shapes_Src ShapesSrc Validate_C01 EigSelect_C01
-                       Shapes_SrcTie Shapes_Proof_Tie.
+                       Shapes_SrcTie Shapes_Proof_Tie Shapes_Proof_Rows.
 Import ListNotations.
 Open Scope Z_scope.
 
@@ -501,3 +501,56 @@ Print Assumptions c01_recursion_allowlisted.
 
 Example c01_recursion_nonvacuous : f_recursive gen_facts <> [].
 Proof. discriminate. Qed.
+
+(* ---- wave 4: "row i of the returned matrix describes input sample i" (landmark triangulation) ------------------- *)
+(* routines/landmarks.hpp: the landmarks are a SHUFFLED prefix of the sample indices and the landmark embedding comes in
+   landmark order; the scatter loop `embedding.row(landmarks[j]) = landmarks_embedding.first.row(j)` + the triangulation
+   of the samples still flagged to_process give, for EVERY landmark list without repetitions (every permutation of all
+   the samples when landmark_ratio = 1), every N and every row type, the matrix whose row i is sample i's row. *)
+Theorem c01_tri_rows_in_sample_order : forall (A : Type) (dflt : A) N lm le (tri : nat -> A),
+  NoDup lm -> List.length le = List.length lm ->
+  tri_rows N lm le tri dflt = map (sample_row lm le tri dflt) (List.seq 0%nat N).
+Proof. exact tri_rows_in_sample_order. Qed.
+Print Assumptions c01_tri_rows_in_sample_order.
+
+Example c01_tri_rows_nonvacuous :
+  NoDup [2; 0]%nat /\ List.length [10; 20] = List.length [2; 0]%nat /\
+  tri_rows 3 [2; 0]%nat [10; 20] (fun i => Z.of_nat i + 100) 0 = [20; 101; 10].
+Proof.
+  split; [|split; [reflexivity|vm_compute; reflexivity]].
+  constructor; [cbn; intros [H|[]]; discriminate|]. constructor; [cbn; intros []|constructor].
+Qed.
+
+(* the coordinates of landmark number j land in row landmarks[j]; a non-landmark sample gets its own triangulation *)
+Theorem c01_tri_rows_landmark_row : forall (A : Type) (dflt : A) N lm le (tri : nat -> A) j,
+  NoDup lm -> List.length le = List.length lm -> (j < List.length lm)%nat -> (nth j lm O < N)%nat ->
+  nth (nth j lm O) (tri_rows N lm le tri dflt) dflt = nth j le dflt.
+Proof. exact tri_rows_landmark_row. Qed.
+Print Assumptions c01_tri_rows_landmark_row.
+
+Theorem c01_tri_rows_other_row : forall (A : Type) (dflt : A) N lm le (tri : nat -> A) i,
+  NoDup lm -> List.length le = List.length lm -> (i < N)%nat -> ~ In i lm ->
+  nth i (tri_rows N lm le tri dflt) dflt = tri i.
+Proof. exact tri_rows_other_row. Qed.
+Print Assumptions c01_tri_rows_other_row.
+
+(* triangulate() AS THE SOURCE HAS IT (table regenerated on every run: `f_tri_returns gen_facts`, the expressions of its
+   return statements): whatever a return statement with another expression would hand back (`alt`) under whatever guard
+   (`g`), the caller gets the rows in sample order -- because there is no such statement.  An early exit that returns the
+   landmark embedding itself changes the table and re-opens c01_src_facts_tied and this theorem. *)
+Theorem c01_tri_rows_src_in_sample_order :
+  forall (A : Type) (dflt : A) (g : bool) (alt : list A) N lm le (tri : nat -> A),
+  NoDup lm -> List.length le = List.length lm ->
+  tri_rows_src gen_facts g alt N lm le tri dflt = map (sample_row lm le tri dflt) (List.seq 0%nat N).
+Proof. exact src_tri_rows_in_sample_order. Qed.
+Print Assumptions c01_tri_rows_src_in_sample_order.
+
+(* "every sample is a landmark: nothing to triangulate, return landmarks_embedding.first": two samples, landmarks
+   shuffled to [1; 0] -- row 0 of the result is sample 1's row *)
+Theorem c01_tri_rows_early_return_refuted :
+  exists (lm : list nat) (le : list Z),
+    NoDup lm /\ List.length le = List.length lm /\ List.length lm = 2%nat /\
+    tri_rows_ret false (Nat.eqb (List.length lm) 2%nat) le 2%nat lm le (fun _ => 0%Z) 0%Z
+      <> map (sample_row lm le (fun _ => 0%Z) 0%Z) (List.seq 0%nat 2%nat).
+Proof. exact tri_rows_early_return_refuted. Qed.
+Print Assumptions c01_tri_rows_early_return_refuted.
